@@ -101,7 +101,7 @@ CHECKS = {
         'release is the greatest tag, no tag -> ValueError; clear(type) removes exactly that type, clear() everything; the file NAMES (<ID>/<id>.<release>.json, + .<random>.tmp) '
         'as strings: classification is a left inverse of both naming functions, so cache locations of different (type, release) never coincide and a temporary file is never a cache location. Correspondence: all histories of '
         'length <= 2 over 13 operations x {absolute, relative} store + random ones, a kill before every boundary, all 2-loader interleavings with <= 2 '
-        'preemptions (thorough: all 12870) with the store snapshot after every boundary, faulty / 3-loader races - the RAW directory listing is classified inside Coq and compared with the model at every '
+        'preemptions (thorough: all 12870) with the store snapshot after every boundary, faulty / 3-loader races, repeated loads of one release with alternating loader options each compared with the direct load - the RAW directory listing is classified inside Coq and compared with the model at every '
         'checkpoint, resolve_store_path is compared with final_name. PARTIAL: power-loss durability and non-POSIX rename are outside the model.',
         'Trusted: Coq kernel + vm_compute; os.replace atomic, mkstemp random parts unique (that a temporary name is never a cache location is proved in Store/Paths.v); boundaries '
         'intercepted by harness-side replacement of module attributes; GitHub services not modelled. Two genuine defects fixed in /repo (fix: 344b425 atomic '
@@ -161,7 +161,7 @@ CHECKS = {
         'exactly what it yields alone, and one opened later is unaffected by what happened before. In the model isolation is structural, so the verdict rests '
         'on the property\'s own observable on the real code: results after query histories (incl. abandoned half-consumed iterators) equal fresh results; all '
         'interleavings (<= 60 per configuration, thorough <= 1680) of 2-3 open iterators yield the solo sequences, and their yields match the model in Coq '
-        '(no repeats, right multiset); 8 reader threads; documents / HPOA files A,B,A through the shared default factories. PARTIAL: preemption inside a '
+        '(no repeats, right multiset); 8 reader threads; documents / HPOA files A,B,A through the shared default factories; every ontology-level query (lookups of primary / alternate / obsolete / absent ids in three argument forms, membership, names, len, listings, version) on three fresh loads in fixed, reverse and shuffled order with open listing iterators. PARTIAL: preemption inside a '
         'generator step and true parallelism are explored, not proved.',
         'Trusted: Coq kernel + vm_compute; generator semantics modelled as explicit states; footprint digest is diagnostic only.',
         '§4 C12'),
@@ -202,8 +202,8 @@ CHECKS = {
         'built on it gives the same result for every kind; the writer leaves in every kind of target exactly the material a reader of that kind reads back '
         '(stated for os.linesep = LF; the CR LF platform caveat is a model-level example); any other argument raises ValueError; looks_gzipped is exactly "ends with .gz", '
         'looks_like_url exactly "starts with http:// or https://". PARTIAL BY NATURE: which Python object falls into which kind (isinstance) and the codecs are '
-        'runtime behaviour - the correspondence executes the whole product (4 readers x 11 source kinds x ASCII/non-ASCII x LF/CRLF/CR, 2 writers x 4 target kinds, 7 other '
-        'argument types; again under LC_ALL=C without UTF-8 mode) on every run and compares the helper\'s decisions and the observed text layer (handle.encoding under default and latin-1 requests; '
+        'runtime behaviour - the correspondence executes the whole product (4 readers x 11 source kinds x ASCII/non-ASCII x LF/CRLF/CR, 2 writers x 4 target kinds, 11 other '
+        'argument types incl. io.IOBase objects that are neither text, buffered nor raw streams; again under LC_ALL=C without UTF-8 mode) on every run and compares the helper\'s decisions and the observed text layer (handle.encoding under default and latin-1 requests; '
         'probe text delivered / emitted) for 26 arguments and 170 strings with the model.',
         'Trusted: Coq kernel + vm_compute; runtime type classification, UTF-8 and gzip. URL sources are not opened (no network). Three genuine defects fixed in /repo '
         '(streams rejected outright; CR LF content through a .gz path; plain-path writer ignoring the encoding - see known_findings.json).',
